@@ -297,6 +297,12 @@ class ExprMixin:
             return self.c.names[name]
         return getattr(self.reg, 'global_names', {}).get(name)
 
+    def ev_JoinedStr(self, e, st):
+        # f-string: the parts are evaluated (their safety obligations count), the text itself is an arbitrary string
+        parts = [v.value for v in e.values if isinstance(v, ast.FormattedValue)]
+        for vs, s in self.ev_many(parts, st):
+            yield SV(STR, fresh('fstr', z3.StringSort())), s
+
     def ev_Lambda(self, e, st):
         # a function value that is only stored / passed on: opaque
         yield SV(ANY, fresh('lambda', AnyS)), st
